@@ -83,7 +83,7 @@ Clauses(c, o) == <<
   <<"X4/lock-released",              c.lock => o.lockFree>>,
   <<"X5/db-run-entry-exists",        (c.db /\ ~UnspecifiedDb(c)) => o.db.present>>,
   <<"X5/db-end-time-set",            (c.db /\ ~UnspecifiedDb(c) /\ o.db.present) => o.db.hasEnd>>,
-  <<"X5/db-exit-code=process",       (c.db /\ ~UnspecifiedDb(c) /\ o.db.present) => o.db.exit = o.exit>>,
+  <<"X5/db-exit-code=process",       (c.db /\ ~UnspecifiedDb(c) /\ o.db.present /\ ~InterruptOutsideRun(c)) => o.db.exit = o.exit>>,
   <<"X6/failing-hook-reported",      (Effective(c) /\ c.how = "HookFails") => o.reported>>,
   <<"X6/failing-hook-never-aborts",  (Effective(c) /\ c.how = "HookFails") =>
                                         (o.phases = FullRun /\ o.pre = 1 /\ o.post.ran = 1)>>,
